@@ -65,7 +65,8 @@ func pinName(rel string, d ast.Decl) []string {
 
 // writesThroughReceiver: every statement of a method of the client (`uhppote`) or the driver (`ut0311`) that stores
 // into the receiver: an assignment, ++/-- or delete/clear whose target is rooted at the receiver (u.x = …,
-// u.devices[k] = …, *u = …) or at a local that was set to a field of the receiver (d := u.devices; d[k] = …).
+// u.devices[k] = …, *u = …) or at a local that was set to a field of the receiver (d := u.devices; d[k] = …), and
+// every place where the address of a field of the receiver is taken (&u.field: a store can follow through it).
 // The client and the driver are immutable after construction: the list is expected to be empty.
 func writesThroughReceiver(rel string, fd *ast.FuncDecl) []string {
 	if fd.Recv == nil || len(fd.Recv.List) != 1 || len(fd.Recv.List[0].Names) != 1 || fd.Body == nil {
@@ -125,6 +126,13 @@ func writesThroughReceiver(rel string, fd *ast.FuncDecl) []string {
 		case *ast.IncDecStmt:
 			if r, deep := root(v.X); roots[r] && deep {
 				add(v)
+			}
+		case *ast.UnaryExpr:
+			// &u.field handed to something else: whoever gets the pointer can store through it
+			if v.Op == token.AND {
+				if r, deep := root(v.X); roots[r] && deep {
+					add(v)
+				}
 			}
 		case *ast.CallExpr:
 			if f, ok := v.Fun.(*ast.Ident); ok && (f.Name == "delete" || f.Name == "clear") && len(v.Args) > 0 {
